@@ -16,7 +16,7 @@ Require Import D42.Prelude.
 Open Scope nat_scope.
 
 (* ------------------------------------------------------------------ abstract syntax *)
-Definition alias := (pystr * option pystr)%type.          (* ast.alias: name, asname *)
+Notation alias := (pystr * option pystr)%type (only parsing).   (* ast.alias: name, asname *)
 
 Inductive stmt :=
 | ImportFrom (level : nat) (module : option pystr) (names : list alias)
@@ -102,6 +102,23 @@ Definition expected_binding (mp : mapping_t) (m : option pystr) (a : alias)
   match lookup2 mp m (fst a) with
   | Some (nm, nn) => (local_name a, (Some nm, nn))
   | None => (local_name a, (m, fst a))
+  end.
+
+(* the names a list of statements imports from module M, left to right *)
+Definition names_from (M : option pystr) (ss : list stmt) : list alias :=
+  flat_map (fun s => match s with
+                     | ImportFrom 0 m' ns => if option_eqb str_eqb M m' then ns else []
+                     | _ => []
+                     end) ss.
+
+Definition sel (M m : option pystr) (u : list alias) : list alias :=
+  if option_eqb str_eqb M m then u else [].
+
+(* what one imported name of [from m import ...] contributes to the imports from M *)
+Definition contrib (mp : mapping_t) (m M : option pystr) (a : alias) : list alias :=
+  match lookup2 mp m (fst a) with
+  | Some (nm, nn) => sel M (Some nm) [(nn, snd a)]
+  | None => sel M m [a]
   end.
 
 (* ------------------------------------------------------------------ physical lines *)
